@@ -60,6 +60,8 @@ def QueryDeviceTypes(addr):
     r = yield QueryDeviceType(addr)
     if r.raw_value is None:
         raise DALISequenceError("No response to initial query")
+    if r.raw_value.error:
+        raise DALISequenceError("Framing error in response to initial query")
     if r.raw_value.as_integer < 254:
         return [r.raw_value.as_integer]
     if r.raw_value.as_integer == 254:
@@ -72,6 +74,9 @@ def QueryDeviceTypes(addr):
         if not r.raw_value:
             raise DALISequenceError(
                 "No response to QueryNextDeviceType()")
+        if r.raw_value.error:
+            raise DALISequenceError(
+                "Framing error in response to QueryNextDeviceType()")
         if r.raw_value.as_integer == 254:
             if len(result) == 0:
                 raise DALISequenceError(
